@@ -18,6 +18,24 @@ import ssz
 FORKS = ["phase0", "altair", "bellatrix", "capella", "deneb", "electra"]
 FAMILY_FINDINGS = ssz.FAMILY_FINDINGS
 
+# read forms of the typed sub-views that must have been exercised (and compared with the stored content) on every fork
+# that has the field: (field, read form); see checkBulkReads / checkGetters in harness/cmd/statestore
+REQUIRED_READS = [
+    ("validators", "count"), ("validators", "element_getters"), ("validators", "flatten"),
+    ("validators", "flatten_bulk"), ("validators", "iter"),
+    ("balances", "all"), ("balances", "length"), ("balances", "element_getters"), ("balances", "iter"),
+    ("block_roots", "element_getters"), ("state_roots", "element_getters"), ("randao_mixes", "element_getters"),
+    ("slashings", "element_getters"), ("slashings", "total"),
+    ("eth1_data_votes", "length"), ("eth1_data_votes", "count"),
+    ("previous_epoch_attestations", "length"), ("previous_epoch_attestations", "element_raw"),
+    ("current_epoch_attestations", "length"), ("current_epoch_attestations", "element_raw"),
+    ("previous_epoch_participation", "raw"), ("previous_epoch_participation", "element_getters"),
+    ("current_epoch_participation", "raw"), ("current_epoch_participation", "element_getters"),
+    ("inactivity_scores", "element_getters"),
+    ("current_sync_committee", "pubkeys_flatten+aggregate"), ("next_sync_committee", "pubkeys_flatten+aggregate"),
+    ("latest_execution_payload_header", "raw"),
+]
+
 TIERS = {
     "quick": dict(behaviours=150, steps=10, advance=2, nvals=3, mc_steps=3, mc_vals=1),
     "thorough": dict(behaviours=1200, steps=12, advance=3, nvals=4, mc_steps=4, mc_vals=1),
@@ -134,6 +152,7 @@ def run(tier, seed):
     devs = []
     distinct = set()
     field_ops = {}
+    read_cov = {}
     for o in outs:
         cov["transitions"] += o["generated"]
         st = {}
@@ -155,6 +174,12 @@ def run(tier, seed):
             if k.startswith("field_"):
                 name, op = k[6:].rsplit("_", 1)
                 fcov.setdefault(name, {})[op] = v
+        reads = {}
+        for k, v in st.items():
+            if k.startswith("read|"):
+                _, name, form = k.split("|", 2)
+                reads.setdefault(name, {})[form] = v
+        read_cov[o["fork"]] = reads
         field_ops[o["fork"]] = (o["fields"], fcov)
         cov["per_fork"][o["fork"]] = {
             "behaviours": nb, "ops": ops, "fields": len(o["fields"]),
@@ -186,6 +211,12 @@ def run(tier, seed):
                 holes.append("%s: action %s never taken" % (fork, op))
         if fork != "electra" and pf["advance"]["advance_ok"] == 0:
             holes.append("%s: no Advance succeeded" % fork)
+    for fork, (fields, _) in field_ops.items():
+        names = {f["name"] for f in fields}
+        for name, form in REQUIRED_READS:
+            if name in names and read_cov[fork].get(name, {}).get(form, 0) == 0:
+                holes.append("%s.%s never read via %s" % (fork, name, form))
+    cov["read_forms"] = read_cov
     if holes:
         raise lib.InfraError("StateStore coverage holes: " + "; ".join(holes[:15]))
     cov["wall"] = time.time() - t0
